@@ -439,7 +439,10 @@ where
         loop {
             let right_child = self.get_page(current)?.right_child();
             let num_slots = self.get_page(current)?.num_slots();
-            self.accessor_mut()?.release(current);
+            // The root stays latched: see [`Self::get_left_most`].
+            if !self.is_root(current) {
+                self.accessor_mut()?.release(current);
+            }
 
             // If right child is not set it means we have reached up a leaf node.
             if let Some(child) = right_child {
@@ -462,7 +465,13 @@ where
             let left_child = self.get_page(current)?.child(0);
 
             let is_leaf = self.get_page(current)?.is_leaf();
-            self.accessor_mut()?.release(current);
+            // The root stays latched: the iterator is built on this very tree object, whose accessor
+            // thus holds the root from the descent to the end of the iteration. Every writer needs
+            // the root's write latch first, so the tree cannot be restructured (the root split, the
+            // leaf freed) between finding the first leaf and starting the iteration.
+            if !self.is_root(current) {
+                self.accessor_mut()?.release(current);
+            }
 
             // If left child is not set it means we have reached up a leaf node.
             if let Some(child) = left_child {
@@ -620,9 +629,14 @@ where
             return Err(BtreeError::BtreeEmpty);
         };
 
-        let left_most_position = self.get_left_most()?;
+        // The descent runs on the tree object the iterator will own: its accessor keeps the root
+        // latched from the descent on (see [`Self::get_left_most`]). This object lets go of the root.
+        let root = self.get_root();
+        self.accessor_mut()?.release(root);
+        let mut tree = self.cloned_shared();
+        let left_most_position = tree.get_left_most()?;
         BtreePositionalIterator::from_position(
-            self.cloned_shared(),
+            tree,
             left_most_position.entry(),
             left_most_position.slot() as isize,
             IterDirection::Forward,
@@ -637,9 +651,12 @@ where
             return Err(BtreeError::BtreeEmpty);
         };
 
-        let right_most_position = self.get_right_most()?;
+        let root = self.get_root();
+        self.accessor_mut()?.release(root);
+        let mut tree = self.cloned_shared();
+        let right_most_position = tree.get_right_most()?;
         BtreePositionalIterator::from_position(
-            self.cloned_shared(),
+            tree,
             right_most_position.entry(),
             right_most_position.slot() as isize,
             IterDirection::Forward,
